@@ -118,7 +118,7 @@ func runC04(t *testing.T, x c04Scn, verbose bool) vfCase {
 	wantIL := x.IL[0] && x.IL[1]
 	var hsPackets [][2]interface{}
 	out := vfRunE1(t, &sc, vfE1Opts{verbose: verbose, done: vfAllDelivered,
-		bound: func(*vfSim) time.Duration { return 8 * time.Second },
+		bound: func(*vfSim) time.Duration { return vfDrainBound(&sc) },
 		preHS: func(s *vfSim) {
 			s.net.onWire = func(ev *vfWireEv) {
 				if ev.P != nil && (ev.P.has(wtINIT) || ev.P.has(wtINITACK) || ev.P.has(wtCOOKIEECHO) || ev.P.has(wtCOOKIEACK)) {
@@ -190,7 +190,7 @@ func runC04(t *testing.T, x c04Scn, verbose bool) vfCase {
 						s.o.settle(time.Millisecond)
 					}
 				}
-				s.o.run(func() bool { return vfAllDelivered(s) }, time.Now().Add(10*time.Second))
+				s.o.run(func() bool { return vfAllDelivered(s) }, time.Now().Add(vfDrainBound(&sc)))
 				check("after stale handshake packets")
 				deliveredOK("after stale handshake packets")
 				c.class("stale-reinjection")
@@ -202,7 +202,7 @@ func runC04(t *testing.T, x c04Scn, verbose bool) vfCase {
 				check("after idling 5 minutes")
 				s.doWrite(0, 0, 700, 53)
 				s.doWrite(1, 1, 700, 53)
-				s.o.run(func() bool { return vfAllDelivered(s) }, time.Now().Add(15*time.Second))
+				s.o.run(func() bool { return vfAllDelivered(s) }, time.Now().Add(vfDrainBound(&sc)))
 				deliveredOK("after idling 5 minutes")
 			}
 		}})
